@@ -147,8 +147,13 @@ func genRegistrySpec(seed uint64, tier string) *spec.RunSpec {
 	if r.Bool(0.5) {
 		n = 2 + r.Intn(6) // reloads racing with many discoveries
 	}
+	// The user list and the hint-mandatory flag are two separate atomics: a discovery reads
+	// the list first and the flag later, so a run that changes both at once can show a
+	// combination that never existed at one instant. Nothing promises otherwise; a run
+	// therefore either reloads the list or toggles the flag.
+	toggles := r.Bool(0.2)
 	for k := 0; k < n; k++ {
-		if r.Bool(0.2) {
+		if toggles {
 			rl = append(rl, spec.ROp{Op: "mandatory", On: r.Bool(0.5)})
 		} else {
 			rl = append(rl, spec.ROp{Op: "setusers", Set: r.Intn(nSets)})
